@@ -12,6 +12,9 @@ real state file) driven one model step at a time along schedules chosen by the e
                         (they do not read the model's output)
   trace_predicates(...) svdriver trace: the trace predicates of coq/Model/SvTrace.v (extracted Gallina, PROVED of every run of Msv:
                         Proofs/SvTraceP.v) evaluated on the REAL observations of every schedule, next to the Python oracles
+  execute_windows(...)  WINDOW runs (harness/svsched/window.go): the inner yield points (every mutex acquisition / time.Timer call in
+                        timermap.go, session.go, store.go: anchors.json "acquisitions") park and the harness explores the interleavings
+                        of the micro-steps itself (preemption bounded, lock aware); judged by the oracles only
   selftest_oracle(...)  the same oracles evaluated on the observations the proved model predicts for the same schedules:
                         a rejection outside the known-finding signatures means the oracle is wrong
   run_property(ctx, prop, tier=None)
@@ -55,6 +58,9 @@ T2SV_ASSUMPTIONS = [
     "wait-timeout context (WithTimeoutCause) is exercised by T1, not here",
     "T2-svsched: the network closer is replaced by: cancel every request context + one DestroySession goroutine per open session; the "
     "three calls cmd/server/main.go makes on a signal run in the order the tree under test has them",
+    "T2-svsched window runs: inside timermap.go, session.go and store.go every mutex acquisition and every time.Timer method call is a yield "
+    "point of its own; the interleavings of these micro-steps are searched by the harness up to the scenario's preemption bound and cap "
+    "(coverage window_runs says which searches were exhausted); code between two such points touches shared state only under the mutex it holds",
     "T2-svsched: lock objects without keys are not compared (the model never collects them, the manager's shutdown does)",
     "T2-svsched: PENDING MODEL UPDATE - under no_clear_on_disconnect /repo (4d97dcb) checks and deletes the session in one critical "
     "section; Model/Sv.v's two steps VDsNoClear, VDsDestroy are executed back to back (the second is a forced item) and compared as one",
